@@ -6,8 +6,9 @@ from pyvc.api import *
 from pyvc import inventory as inv
 from contracts import c08 as _c08
 from contracts import c12 as _c12
+from contracts import load as _loading
 
-SPEC_IMPORTS = ['contracts.common', 'contracts.c20', 'contracts.c12', 'contracts.c08']
+SPEC_IMPORTS = ['contracts.common', 'contracts.c20', 'contracts.c12', 'contracts.c08', 'contracts.load']
 SPEC_FUNCTIONS = []
 
 _NAMES = Seq(STR)
@@ -46,7 +47,7 @@ def register(reg):
     reg.names['file_exists'] = FnSpec('file_exists', params=[('p', ANY)], ret=BOOL, pure=True, assumed=True,
                                       note='ghost: the path exists at the time of the call')
 
-CONTRACTS = [_mc_add, _mc_get, _c12._get_module_info, _c08._sig_key]
+CONTRACTS = [_mc_add, _mc_get, _c12._get_module_info, _c08._sig_key, _loading.load_python_module]
 
 
 def _replay_mtime(inp):
